@@ -296,7 +296,16 @@ mod tomlpart {
         removed.retain(|p| !all_removed.iter().any(|q| q.len() < p.len() && p[..q.len()] == q[..]));
         removed.sort_by_key(|p| std::cmp::Reverse(p.len()));
         let doc_text = toml::to_string(&doc).unwrap_or_default();
+        // the documented defaults do not depend on the process environment: half of the documents are
+        // parsed with the worker-count override variable set
+        let with_env = id.len() % 2 == 0;
+        if with_env {
+            std::env::set_var("FLACENC_WORKERS", "3");
+        }
         let parsed = toml::from_str::<config::Encoder>(&doc_text);
+        if with_env {
+            std::env::remove_var("FLACENC_WORKERS");
+        }
         let expected = expected_after(cfg, &removed).map(|mut c| {
             c.canon();
             c
